@@ -61,3 +61,238 @@ Proof. intros H. unfold get_char. apply N.leb_le in H. now rewrite H. Qed.
 
 Lemma search_char_out_of_range b ch pos : (N.of_nat (blen b) <= pos)%N -> search_char b ch pos = None.
 Proof. intros H. unfold search_char. apply N.leb_le in H. now rewrite H. Qed.
+
+(* ---------------------------------------------------------------------------------------- *)
+(* list and memory-primitive lemmas                                                          *)
+
+Lemma firstn_app_l {A} n (a b : list A) : n = length a -> firstn n (a ++ b) = a.
+Proof. intros ->. rewrite firstn_app, Nat.sub_diag, firstn_all. cbn. apply app_nil_r. Qed.
+
+Lemma skipn_app_l {A} n (a b : list A) : n = length a -> skipn n (a ++ b) = b.
+Proof. intros ->. rewrite skipn_app, Nat.sub_diag, skipn_all. reflexivity. Qed.
+
+Lemma skipn_app_l2 {A} n k (a b : list A) : n = length a + k -> skipn n (a ++ b) = skipn k b.
+Proof.
+  intros ->. rewrite skipn_app. replace (length a + k - length a) with k by lia.
+  rewrite skipn_all2 by lia. reflexivity.
+Qed.
+
+Lemma firstn_app_l2 {A} n k (a b : list A) : n = length a + k -> firstn n (a ++ b) = a ++ firstn k b.
+Proof. intros ->. apply firstn_app_2. Qed.
+
+Lemma skipn_skipn {A} a b (l : list A) : skipn a (skipn b l) = skipn (b + a) l.
+Proof. revert l. induction b; intros l; [reflexivity|]. destruct l; cbn; [now rewrite skipn_nil | apply IHb]. Qed.
+
+Lemma split3 {A} (l : list A) a b : l = firstn a l ++ firstn b (skipn a l) ++ skipn (a + b) l.
+Proof. rewrite <- (firstn_skipn a l) at 1. f_equal. rewrite <- (firstn_skipn b (skipn a l)) at 1. f_equal. now rewrite skipn_skipn. Qed.
+
+Lemma blit_at b pre mid post src n : cells b = pre ++ mid ++ post -> length mid = length src -> n = length pre ->
+  blit b n src = set_cells b (pre ++ src ++ post).
+Proof.
+  intros H Hl ->. unfold blit. rewrite H, !app_length.
+  replace (length pre + length src <=? length pre + (length mid + length post)) with true
+    by (symmetry; apply Nat.leb_le; lia).
+  f_equal. rewrite firstn_app_l by reflexivity. f_equal. f_equal.
+  rewrite skipn_app_l2 with (k := length src) by reflexivity. apply skipn_app_l. lia.
+Qed.
+
+Lemma memmove_at b a m c pre mid post dst src n :
+  cells b = a ++ m ++ c -> cells b = pre ++ mid ++ post -> length mid = length m ->
+  dst = length pre -> src = length a -> n = length m ->
+  memmove b dst src n = set_cells b (pre ++ m ++ post).
+Proof.
+  intros H1 H2 Hl -> -> ->. unfold memmove.
+  assert (Hs : firstn (length m) (skipn (length a) (cells b)) = m).
+  { rewrite H1. rewrite skipn_app_l by reflexivity. now apply firstn_app_l. }
+  rewrite Hs.
+  replace (length a + length m <=? length (cells b)) with true
+    by (symmetry; apply Nat.leb_le; rewrite H1, !app_length; lia).
+  eapply blit_at; eauto.
+Qed.
+
+Lemma poke_at b pre x post v n : cells b = pre ++ x :: post -> n = length pre ->
+  poke b n v = set_cells b (pre ++ v :: post).
+Proof. intros H ->. unfold poke. apply (blit_at b pre [x] post [v]); auto. Qed.
+
+(* ---------------------------------------------------------------------------------------- *)
+(* representation of a well-formed dynamic buffer                                            *)
+
+Definition dyn (s rest : list N) : buf := mkbuf (s ++ 0%N :: rest) (length s) false false.
+Definition empty_dyn : buf := mkbuf [] 0 false false.
+
+(* b is a dynamic buffer in good shape holding s *)
+Definition R (b : buf) (s : list N) : Prop := (b = empty_dyn /\ s = []) \/ exists rest, b = dyn s rest.
+
+Lemma contents_dyn s rest : contents (dyn s rest) = s.
+Proof. unfold contents, dyn. cbn. now apply firstn_app_l. Qed.
+
+Lemma R_contents b s : R b s -> contents b = s /\ bstatic b = false /\ blen b = length s.
+Proof. intros [(-> & ->) | (rest & ->)]; [now cbn | split; [apply contents_dyn | now cbn]]. Qed.
+
+Lemma R_Inv b s : R b s -> Inv b.
+Proof.
+  intros [(-> & ->) | (rest & ->)]; unfold Inv; cbn; split; auto.
+  right. rewrite app_length. cbn. split; [lia|]. rewrite app_nth2 by lia. now rewrite Nat.sub_diag.
+Qed.
+
+Lemma Inv_R b : Inv b -> bstatic b = false -> R b (contents b).
+Proof.
+  destruct b as [c n st f]. unfold Inv, R, contents, dyn, empty_dyn. cbn. intros (-> & H) ->.
+  destruct H as [(-> & ->) | (Hlt & Hz)]; [now left|right].
+  exists (skipn (S n) c). rewrite firstn_length. replace (Nat.min n (length c)) with n by lia.
+  f_equal. rewrite <- (firstn_skipn n c) at 1. f_equal.
+  destruct (skipn n c) as [|x r] eqn:E.
+  { apply (f_equal (@length N)) in E. rewrite skipn_length in E. cbn in E. lia. }
+  assert (x = 0%N).
+  { rewrite <- Hz. rewrite <- (firstn_skipn n c) at 1. rewrite app_nth2; rewrite firstn_length; [|lia].
+    replace (n - Nat.min n (length c)) with 0 by lia. now rewrite E. }
+  subst x. f_equal. replace (S n) with (n + 1) by lia. rewrite <- skipn_skipn, E. reflexivity.
+Qed.
+
+(* ---------------------------------------------------------------------------------------- *)
+(* grow_buff, insert_data                                                                    *)
+
+Definition raw (s T : list N) : buf := mkbuf (s ++ T) (length s) false false.
+
+Lemma dyn_raw s rest : dyn s rest = raw s (0%N :: rest).
+Proof. reflexivity. Qed.
+
+Lemma grow_raw s T size : exists T',
+  grow_buff (raw s T) size = (raw s T', true) /\ size + 1 <= length T'.
+Proof.
+  unfold grow_buff, raw, malloced, set_cells. cbn [bstatic blen cells bfault].
+  destruct (length (s ++ T) <? length s + S size) eqn:E.
+  - apply Nat.ltb_lt in E.
+    eexists (T ++ repeat junk _). rewrite <- app_assoc. split; [reflexivity|].
+    rewrite app_length, repeat_length. rewrite app_length in *.
+    destruct (_ <? _) eqn:E2; [apply Nat.ltb_lt in E2 | apply Nat.ltb_ge in E2]; lia.
+  - apply Nat.ltb_ge in E. exists T. split; [reflexivity|]. rewrite app_length in E. lia.
+Qed.
+
+Lemma insert_data_raw s T p data : data <> [] -> p <= length s -> exists rest',
+  insert_data (raw s T) (N.of_nat p) data = (dyn (insert_spec s p data) rest', true).
+Proof.
+  intros Hd Hp. unfold insert_data.
+  assert (Hl : 0 < length data) by (destruct data; [congruence | cbn; lia]).
+  replace (bstatic (raw s T)) with false by reflexivity.
+  replace (length data =? 0) with false by (symmetry; apply Nat.eqb_neq; lia).
+  replace (N.of_nat (blen (raw s T)) <? N.of_nat p)%N with false by (symmetry; apply N.ltb_ge; cbn; lia).
+  cbn [orb]. rewrite Nat2N.id.
+  destruct (grow_raw s T (length data)) as (T' & -> & HT'). cbn [negb].
+  set (s1 := firstn p s). set (s2 := skipn p s).
+  assert (Hs : s = s1 ++ s2) by (symmetry; apply firstn_skipn).
+  assert (Hl1 : length s1 = p) by (unfold s1; rewrite firstn_length; lia).
+  assert (Hl2 : length s2 = length s - p) by (unfold s2; now rewrite skipn_length).
+  (* the cell right after the inserted text and what follows it *)
+  destruct (skipn (length data) T') as [|x T''] eqn:ET.
+  { apply (f_equal (@length N)) in ET. rewrite skipn_length in ET. cbn in ET. lia. }
+  exists T''. unfold insert_spec. fold s1 s2.
+  assert (Hfin : forall b2, cells b2 = s1 ++ firstn (length data) (s2 ++ T') ++ s2 ++ x :: T'' ->
+            blen b2 = length s -> bstatic b2 = false -> bfault b2 = false ->
+            (let b3 := blit b2 p data in let b4 := set_len b3 (blen b3 + length data) in poke b4 (blen b4) 0%N)
+            = dyn (s1 ++ data ++ s2) T'').
+  { intros b2 Hc Hbl Hst Hf. cbn zeta.
+    rewrite (blit_at b2 s1 (firstn (length data) (s2 ++ T')) (s2 ++ x :: T'') data p); auto.
+    2:{ rewrite firstn_length, app_length. lia. }
+    unfold set_len, set_cells. cbn [cells blen bstatic bfault].
+    erewrite (poke_at _ (s1 ++ data ++ s2) x T''); cbn [cells].
+    2:{ now rewrite <- !app_assoc. }
+    2:{ rewrite Hbl, Hs, !app_length. lia. }
+    unfold set_cells, dyn. cbn [cells blen bstatic bfault]. rewrite Hst, Hf, Hbl. f_equal.
+    rewrite Hs, !app_length. lia. }
+  f_equal.
+  assert (HU : cells (raw s T') = s1 ++ s2 ++ T') by (unfold raw; cbn [cells]; rewrite Hs at 1; now rewrite <- app_assoc).
+  destruct (p <? blen (raw s T')) eqn:E.
+  - (* memmove of the tail s2 by |data| cells *)
+    erewrite (memmove_at (raw s T') s1 s2 T' (s1 ++ firstn (length data) (s2 ++ T'))
+                (firstn (length s2) (skipn (length data) (s2 ++ T')))
+                (skipn (length data + length s2) (s2 ++ T'))).
+    + apply Hfin; auto. unfold set_cells. cbn [cells].
+      rewrite (skipn_app_l2 _ (length data)) by lia. rewrite ET. rewrite <- ?app_assoc. reflexivity.
+    + exact HU.
+    + rewrite HU, <- app_assoc. f_equal. apply split3.
+    + rewrite firstn_length, skipn_length, app_length. lia.
+    + rewrite app_length, firstn_length, app_length. lia.
+    + lia.
+    + cbn [blen raw]. lia.
+  - (* appending: nothing to move *)
+    apply Nat.ltb_ge in E. cbn [blen raw] in E.
+    assert (s2 = []) by (apply length_zero_iff_nil; lia). 
+    apply Hfin; auto. rewrite HU, H. cbn [app]. f_equal.
+    rewrite <- (firstn_skipn (length data) T') at 1. now rewrite ET.
+Qed.
+
+(* ---------------------------------------------------------------------------------------- *)
+(* delete, set_char, create                                                                  *)
+
+Lemma delete_dyn s rest p k : p < length s -> 0 < k -> p + k <= length s -> exists rest',
+  delete (dyn s rest) (N.of_nat p) (N.of_nat k) = (dyn (delete_spec s p k) rest', true).
+Proof.
+  intros Hp Hk Hpk. unfold delete. cbn [bstatic dyn blen].
+  replace (N.of_nat (length s) <=? N.of_nat p)%N with false by (symmetry; apply N.leb_gt; lia).
+  replace (N.of_nat k =? 0)%N with false by (symmetry; apply N.eqb_neq; lia).
+  cbn [orb]. rewrite !Nat2N.id.
+  replace (length s <? p + k) with false by (symmetry; apply Nat.ltb_ge; lia).
+  set (s1 := firstn p s). set (sm := firstn k (skipn p s)). set (s3 := skipn (p + k) s).
+  assert (Hs : s = s1 ++ sm ++ s3) by apply split3.
+  assert (Hl1 : length s1 = p) by (unfold s1; rewrite firstn_length; lia).
+  assert (Hlm : length sm = k) by (unfold sm; rewrite firstn_length, skipn_length; lia).
+  assert (Hl3 : length s3 = length s - p - k) by (unfold s3; rewrite skipn_length; lia).
+  destruct (skipn (length s3) (sm ++ s3)) as [|x W] eqn:EW.
+  { apply (f_equal (@length N)) in EW. rewrite skipn_length, app_length in EW. cbn in EW. lia. }
+  exists (W ++ 0%N :: rest). f_equal. unfold delete_spec. fold s1 s3.
+  assert (Hc : s ++ 0%N :: rest = (s1 ++ sm) ++ s3 ++ 0%N :: rest).
+  { rewrite Hs at 1. now rewrite <- !app_assoc. }
+  erewrite (memmove_at _ (s1 ++ sm) s3 (0%N :: rest) s1 (firstn (length s3) (sm ++ s3)) ((x :: W) ++ 0%N :: rest)).
+  - unfold set_len, set_cells. cbn [cells blen bstatic bfault].
+    erewrite (poke_at _ (s1 ++ s3) x (W ++ 0%N :: rest)); cbn [cells blen].
+    + unfold set_cells, dyn. cbn [cells blen bstatic bfault]. f_equal. rewrite !app_length. lia.
+    + now rewrite <- app_assoc.
+    + cbn [blen dyn]. rewrite app_length. lia.
+  - exact Hc.
+  - cbn [cells dyn]. rewrite Hc, <- !app_assoc. f_equal. rewrite <- EW.
+    rewrite (app_assoc (firstn _ _)), firstn_skipn. now rewrite <- app_assoc.
+  - rewrite firstn_length, app_length. lia.
+  - lia.
+  - rewrite app_length. lia.
+  - lia.
+Qed.
+
+Lemma set_char_dyn s rest p ch : p < length s ->
+  set_char (dyn s rest) (N.of_nat p) ch = (dyn (set_spec s p ch) rest, true).
+Proof.
+  intros Hp. unfold set_char. cbn [bstatic dyn blen].
+  replace (N.of_nat (length s) <=? N.of_nat p)%N with false by (symmetry; apply N.leb_gt; lia).
+  cbn [orb]. rewrite Nat2N.id. f_equal.
+  destruct (skipn p s) as [|x r] eqn:E.
+  { apply (f_equal (@length N)) in E. rewrite skipn_length in E. cbn in E. lia. }
+  assert (Hs : s = firstn p s ++ x :: r) by (now rewrite <- E, firstn_skipn).
+  assert (Hr : skipn (S p) s = r).
+  { replace (S p) with (p + 1) by lia. now rewrite <- skipn_skipn, E. }
+  erewrite (poke_at _ (firstn p s) x (r ++ 0%N :: rest)).
+  - unfold set_cells, dyn, set_spec. cbn [cells blen bstatic bfault]. rewrite Hr. f_equal.
+    + now rewrite <- app_assoc.
+    + rewrite app_length. cbn [length]. apply (f_equal (@length N)) in Hs. rewrite app_length in Hs. cbn [length] in Hs. lia.
+  - cbn [cells dyn]. rewrite Hs at 1. now rewrite <- app_assoc.
+  - rewrite firstn_length. lia.
+Qed.
+
+Lemma create_dyn data block : data <> [] -> (N.of_nat (length data) + 1 + block < 4294967296)%N ->
+  exists rest, create data block = dyn data rest.
+Proof.
+  intros Hd Hb. unfold create. destruct data as [|d0 dr] eqn:Ed; [congruence|]. rewrite <- Ed in *.
+  assert (Hl : 0 < length data) by (rewrite Ed; cbn; lia).
+  set (m := if (u32 (block + 1) <? u32 (N.of_nat (length data) + 1))%N then u32 (N.of_nat (length data) + 1 + block) else u32 (block + 1)).
+  assert (Hm : length data + 1 <= N.to_nat m).
+  { unfold m, u32. clear m. rewrite !N.mod_small by lia.
+    destruct (_ <? _)%N eqn:E; [apply N.ltb_lt in E | apply N.ltb_ge in E]; lia. }
+  destruct (skipn (length data) (repeat junk (N.to_nat m))) as [|x W] eqn:EW.
+  { apply (f_equal (@length N)) in EW. rewrite skipn_length, repeat_length in EW. cbn in EW. lia. }
+  exists W.
+  erewrite (blit_at _ [] (firstn (length data) (repeat junk (N.to_nat m))) (x :: W) data 0).
+  - unfold set_cells. cbn [cells blen bstatic bfault app].
+    erewrite (poke_at _ data x W); cbn [cells]; reflexivity.
+  - cbn [cells app]. now rewrite <- EW, firstn_skipn.
+  - rewrite firstn_length, repeat_length. lia.
+  - reflexivity.
+Qed.
